@@ -48,6 +48,7 @@ def gen_case(rng, tier):
     prof["local_callee"] = rng.choice([0, 0, 0.5])  # calls to a function of the module that sets up an accelerator itself
     prof["while_loops"] = rng.choice([0, 0, 0.4])
     prof["state_loops"] = rng.choice([0, 0, 0.6])  # hand-threaded loops that already carry an accelerator's state  # counted loops written as scf.while  # ... some of it stale (something was inserted after the IR had been threaded)
+    G.classic(rng, prof)
     ast = G.AccfgGen(rng, prof).program()
     return {"ast": ast, "envs": gen_envs(rng, K_ENVS[tier]), "pipeline": PIPELINE}
 
